@@ -19,7 +19,8 @@ RULE = ("one run = valid document + scheduled delivery + history of legal add/rm
         "distinct model-text digests compared")
 PROBES = ["settled_compare", "unsettled_skip", "cascade_ge3", "cascade_transitive", "gap_unmention",
           "rename_mentioned", "forward_reference_add", "restart_crosscheck", "group_merge",
-          "fanout2_removal", "readd_removed", "model_unspecified", "anonymise_mentioned"]
+          "fanout2_removal", "readd_removed", "model_unspecified", "anonymise_mentioned",
+          "rename_onto_mentioned", "removed_instance_added_again"]
 
 
 def tag_edit(rng, rec):
@@ -71,6 +72,7 @@ def gen(streams, tier, i):
     m = Doc(version, lines)
     hr = streams.get("history")
     removed_texts = []
+    removed_objs = []
     n = hr.randint(2, 10 if tier == "quick" else 24)
     for _ in range(n):
         r = hr.random()
@@ -84,9 +86,19 @@ def gen(streams, tier, i):
                 op = {"op": "rm", "text": rec.render(), "how": hr.choice(["rm_obj", "disconnect"])}
             else:
                 op = {"op": "rm", "id": nm, "how": hr.choice(["rm", "rm_obj", "disconnect"])}
+            if rec.rt in ("P", "O"):
+                removed_objs.append((sum(1 for o_ in ops if o_["op"] == "rm"), rec.render()))
             for x in m.remove([rec]):
                 removed_texts.append(x.render())
             ops.append(op)
+        elif r < 0.33 and removed_objs:
+            # the very object that was removed (a path, an ordered group) is added again, after whatever happened
+            # in between: it still is the line it was when it was removed
+            k_, t = hr.choice(removed_objs)
+            if m.copy().add_text(t) in ("ok",):
+                m.add_text(t)
+                ops.append({"op": "readd_obj", "rmidx": k_, "text": t})
+                removed_objs.remove((k_, t))
         elif r < 0.42 and anon:
             rec = hr.choice(anon)
             ops.append({"op": "rm", "text": rec.render(), "how": hr.choice(["rm_obj", "disconnect"])})
@@ -101,6 +113,13 @@ def gen(streams, tier, i):
             new = sh.fresh(hr)
             m.rename(nm, new)
             ops.append({"op": "rename", "id": nm, "new": new})
+        elif r < 0.585 and sorted(m.dangling()) and names:
+            # a line is renamed to an identifier that other lines mention and nothing defines: refused, or the
+            # mentions refer to it from now on (as in the text, where it then is the definition)
+            tgt = [x for x in names if ns[x][0].rt == "S"]
+            und = sorted(m.dangling())
+            if tgt and und:
+                ops.append({"op": "rename", "id": hr.choice(tgt), "new": hr.choice(und), "expect": "either"})
         elif r < 0.60 and version == "gfa2":
             # a line that a group mentions cannot lose its identifier: the mention could not be written any more
             ment = sorted(x for x in names if ns[x][0].rt in ("E", "G", "O", "U")
@@ -244,6 +263,8 @@ def run(scn, st):
     m = None
     version = scn["cfg"]["version"]
     nsteps = 0
+    rm_handles = []
+    n_removed = 0
     for n, op in enumerate(scn["ops"]):
         if op["op"] == "new":
             w.apply(op)
@@ -261,6 +282,44 @@ def run(scn, st):
                     if len(getattr(t, c)) >= 2:
                         st.count("probe.fanout2_removal")
                         break
+        if op["op"] == "rm":
+            n_removed = len(w.removed)
+        if op["op"] == "readd_obj":
+            ent = rm_handles[op["rmidx"]] if op["rmidx"] < len(rm_handles) else None
+            # (in a shrunk history the index may point at another removal: the text recorded when the object was
+            # removed says whether it is the line the operation means)
+            if ent is None or gtext.canon_lines(ent[1], version) != gtext.canon_lines(op["text"], version) \
+                    or m.copy().add_text(op["text"]) != "ok":
+                continue
+            obj = ent[0]
+            rm_handles[op["rmidx"]] = None      # (the object lives on in the Gfa: it is no removed line any more)
+            out = core.call(w.gfa.add_line, obj)
+            m.add_text(op["text"])
+            st.count("probe.removed_instance_added_again")
+            if not out.ok:
+                raise core.Violation("legal-step-rejected", "step %d: the removed line %r, added again as the same "
+                                     "object, raised %s: %s" % (n, op["text"], out.excname, str(out.exc)[:200]),
+                                     op="readd_obj", exc=out.excname, frame=out.frame)
+            if m.settled() and w.gfa.version == version:
+                compare(w, m, st, n, op)
+                restart_check(w, m, st, n, op)
+            continue
+        if op.get("expect") == "either":
+            rec = m.by_name(op["id"])
+            if rec is None or op["new"] in m.namespace() or op["new"] not in m.dangling():
+                continue
+            out = w.apply(op)
+            st.count("probe.rename_onto_mentioned")
+            if out.ok:
+                m.rename(op["id"], op["new"])
+                st.count("probe.rename_onto_mentioned_accepted")
+            if m.settled() and w.gfa.version == version:
+                compare(w, m, st, n, op)
+                restart_check(w, m, st, n, op)
+            else:
+                # whatever the answer was, a later removal shows whether the mentions follow the line
+                pass
+            continue
         if op.get("expect") == "refused":
             rec = m.by_name(op["id"])
             if rec is None or not any(op["id"] in m.item_mentions(q) for q in m.recs if q.rt in ("O", "U")):
@@ -284,6 +343,8 @@ def run(scn, st):
             return
         out = w.apply(op)
         st.count("outcome." + out.kind)
+        if op["op"] == "rm":
+            rm_handles.append((w.removed[-1], ob.line_text(w.removed[-1])) if (out.ok and len(w.removed) > n_removed) else None)
         if m.unspecified:
             st.count("probe.model_unspecified")
             return
